@@ -66,7 +66,8 @@ def validate_keys_values(keys, values):
         if not isinstance(values, (int, float, str, np.floating)) and not isinstance(values, Iterable):
             raise ValueError(f"value must be a string, scalar or an iterable, got {values}")
 
-        if len(values) > 0 and not isinstance(values[0], (list, tuple, np.ndarray)):
+        # an empty query is a query for the single key with no value to look up
+        if len(values) == 0 or not isinstance(values[0], (list, tuple, np.ndarray)):
             values = (values,)
 
     elif isinstance(keys, Sized):
